@@ -324,10 +324,13 @@ pub fn run(out_prefix: &str, shards: usize, families: &[String], seed: u64, full
                 for perm in [[0usize, 1, 2], [2, 1, 0], [1, 0, 2], [0, 2, 1], [2, 0, 1], [1, 2, 0]] {
                     let letters = [b'a', b'b', b'c'];
                     let (x, y, z) = (letters[perm[0]], letters[perm[1]], letters[perm[2]]);
-                    for tail in [0usize, 1] {
-                        // w = x y z (+ y): patterns  w·d,  w[1..]·e,  w[2..]  (and a fourth hop)
+                    for tail in [0usize, 1, 5] {
+                        // w = x y z (+ y): patterns  w·d,  w[1..]·e,  w[2..]  (and a fourth hop);
+                        // tail 5: w has 8 bytes, so the failure hops leave states deeper than 6 and
+                        // (depending on the order) lead to states created later, with larger ids
                         let mut w = vec![x, y, z];
                         if tail == 1 { w.push(y); }
+                        if tail == 5 { w.extend([y, x, z, z, y]); }
                         let p1: Vec<u8> = w.iter().copied().chain([b'd']).collect();
                         let p2: Vec<u8> = w[1..].iter().copied().chain([b'e']).collect();
                         let p3: Vec<u8> = w[2..].to_vec();
